@@ -64,17 +64,31 @@ C07_NoUnsafeExec(calls, docs, safes) ==
 \* every target name in the tree is one the documents wrote as a name (a reference or other text merged onto a
 \* function node becomes its "target" and fails to import: that error may come first)
 C07_NamesKnown(t, docs, safes) ==
-    \A p \in PathsOf(t) : At(t, p).k \in C07_DynKinds =>
-        C07_NodeName(At(t, p)) \in C07_TaintedNames(docs, safes) \cup C07_CleanNames(docs, safes)
+    /\ \A p \in PathsOf(t) : At(t, p).k \in C07_DynKinds =>
+           C07_NodeName(At(t, p)) \in C07_TaintedNames(docs, safes) \cup C07_CleanNames(docs, safes)
+    /\ \A p \in PathsOf(t) : IsFn(At(t, p)) => At(t, p).ref = <<>>          \* (no NoImport marker)
 \* (another error - a dangling reference evaluated earlier - may legitimately come first)
 C07_FailsUnsafe(t, status, docs, safes) ==
     (C07_TaintedDyn(t, docs, safes) # {} /\ status \in {"done", "EvalError", "UnsafeError"}) =>
         /\ status # "done"
         /\ (~BadRefs(t) /\ C07_NamesKnown(t, docs, safes)) => status = "UnsafeError"
 
-C07_EvalHolds(t, status, calls, docs, safes) ==
+\* a name resolved by evaluated code (an !eval node whose code is one bare name, see AyEval) never yields unsafe content
+RECURSIVE C07_AtomsAt(_, _)
+C07_AtomsAt(d, p) ==
+    IF p = <<>> THEN C07_AtomsOf(d)
+    ELSE IF \E i \in 1..Len(d.ch) : d.ch[i][1] = p[1]
+         THEN C07_AtomsAt(d.ch[CHOOSE i \in 1..Len(d.ch) : d.ch[i][1] = p[1]][2], Tail(p))
+         ELSE {}
+C07_NoUnsafeResolved(t, status, data, docs, safes) ==
+    status = "done" =>
+        \A p \in PathsOf(t) : (At(t, p).k = "eval" /\ At(t, p).ref # <<>>) =>
+            C07_AtomsAt(data, p) \cap C07_TaintedAtoms(docs, safes) = {}
+
+C07_EvalHolds(t, status, calls, data, docs, safes) ==
     C07_InDomain(docs, safes) =>
         /\ C07_NoUnsafeExec(calls, docs, safes)
+        /\ C07_NoUnsafeResolved(t, status, data, docs, safes)
         /\ C07_FailsUnsafe(t, status, docs, safes)
 C07_TreesHold(outs, docs, safes) ==
     C07_InDomain(docs, safes) => \A j \in 1..Len(outs) : IsErr(outs[j]) \/ C07_TaintSound(outs[j], docs, safes)
@@ -88,6 +102,7 @@ C07_Bind(fn, args) == [SD("bind", NoVal, args) EXCEPT !.fn = fn, !.form = "tag"]
 C07_Import(name) == [SD("import", Atom("s", name), <<>>) EXCEPT !.form = "tag"]
 C07_XRef(p) == [SD("xref", NoVal, <<>>) EXCEPT !.form = "tag", !.ref = p]
 C07_Req == [SD("required", NoVal, <<>>) EXCEPT !.form = "tag"]
+C07_EvalN(key) == [SD("eval", Atom("s", key), <<>>) EXCEPT !.form = "tag", !.ref = <<SKey(key)>>]     \* !eval <key>
 C07_Unsafe(sd) == IF sd.form = "none" THEN WithTag(sd, "unsafe") ELSE [sd EXCEPT !.safe = "F", !.form = "md"]
 
 \* what stage 1 may put at f (and data at d that f's argument may refer to)
@@ -103,6 +118,7 @@ C07_F1 == {C07_Call("vmod.r1a", <<<<C07_KA, C07_S("vmod.r1v")>>>>),
            C07_Bind("vmod.r1a", <<<<C07_KA, C07_S("vmod.r1v")>>>>),
            C07_Call("vmod.r1a", <<<<C07_KA, SD("list", NoVal, <<<<IKey(0), C07_S("vmod.r1v")>>>>)>>>>),      \* a list argument (may be !extend-ed)
            C07_Import("vmod.r1a"),
+           C07_EvalN("d"), C07_Call("vmod.r1a", <<<<C07_KA, C07_EvalN("d")>>>>),       \* data reached through a name in evaluated code
            C07_Req, C07_S("vmod.r1v"), SD("dict", NoVal, <<>>)}
 C07_D1 == {C07_S("vmod.r1x"), C07_Unsafe(C07_S("vmod.r1y")), SD("list", NoVal, <<<<IKey(0), C07_S("vmod.r1x")>>>>),
            SD("list", NoVal, <<<<IKey(0), C07_Unsafe(C07_S("vmod.r1y"))>>>>)}          \* a safe container holding an unsafe item
@@ -110,7 +126,12 @@ C07_D1 == {C07_S("vmod.r1x"), C07_Unsafe(C07_S("vmod.r1y")), SD("list", NoVal, <
 \* when the argument of f refers to it - directly, or through a reference g that was evaluated before as well
 C07_FRef == {C07_Call("vmod.r1a", <<<<C07_KA, C07_XRef(<<C07_KD>>)>>>>),
              C07_Call("vmod.r1a", <<<<C07_KA, C07_Call("vmod.r1b", <<>>)>>, <<SKey("b"), C07_XRef(<<C07_KD>>)>>>>),
-             C07_Bind("vmod.r1a", <<<<C07_KA, C07_Call("vmod.r1b", <<>>)>>, <<SKey("b"), C07_XRef(<<C07_KD>>)>>>>)}
+             C07_Bind("vmod.r1a", <<<<C07_KA, C07_Call("vmod.r1b", <<>>)>>, <<SKey("b"), C07_XRef(<<C07_KD>>)>>>>),
+             C07_EvalN("d"), C07_Call("vmod.r1a", <<<<C07_KA, C07_EvalN("d")>>>>)}
+\* ... and d only PARTLY evaluated when the name d is looked up (g made its first item evaluate; ecfg holds a placeholder for d)
+C07_Stage1C == { SD("dict", NoVal, <<<<SKey("g"), C07_XRef(<<C07_KD, IKey(0)>>)>>, <<C07_KF, f>>, <<C07_KD, d>>>>)
+                 : f \in {C07_EvalN("d"), C07_Call("vmod.r1a", <<<<C07_KA, C07_EvalN("d")>>>>)},
+                   d \in {SD("list", NoVal, <<<<IKey(0), C07_S("vmod.r1x")>>>>), SD("list", NoVal, <<<<IKey(0), C07_Unsafe(C07_S("vmod.r1y"))>>>>)} }
 C07_Stage1B == UNION { {SD("dict", NoVal, <<<<C07_KD, d>>, <<C07_KF, f>>>>),
                         SD("dict", NoVal, <<<<C07_KD, d>>, <<C07_KF, C07_Unsafe(f)>>>>),
                         C07_Unsafe(SD("dict", NoVal, <<<<C07_KD, d>>, <<C07_KF, f>>>>)),
@@ -119,7 +140,7 @@ C07_Stage1B == UNION { {SD("dict", NoVal, <<<<C07_KD, d>>, <<C07_KF, f>>>>),
                         SD("dict", NoVal, <<<<C07_KD, d>>, <<SKey("g"), SD("dict", NoVal, <<<<SKey("h"), C07_XRef(<<C07_KD>>)>>>>)>>,
                                             <<C07_KF, C07_Call("vmod.r1a", <<<<C07_KA, C07_XRef(<<SKey("g")>>)>>>>)>>>>)}
                      : f \in C07_FRef, d \in C07_D1 }
-C07_Stage1 == C07_Stage1B \cup UNION { {SD("dict", NoVal, <<<<C07_KF, f>>, <<C07_KD, d>>>>),
+C07_Stage1 == C07_Stage1B \cup C07_Stage1C \cup UNION { {SD("dict", NoVal, <<<<C07_KF, f>>, <<C07_KD, d>>>>),
                        SD("dict", NoVal, <<<<C07_KF, IF f.k = "import" THEN f ELSE C07_Unsafe(f)>>, <<C07_KD, d>>>>),
                        C07_Unsafe(SD("dict", NoVal, <<<<C07_KF, f>>, <<C07_KD, d>>>>))}
                     : f \in C07_F1, d \in C07_D1 }
@@ -131,7 +152,7 @@ C07_FLater(j) ==
         SD("dict", NoVal, <<<<IKey(0), C07_S(v)>>>>),
         SD("list", NoVal, <<<<IKey(0), C07_S(v)>>>>),                                       \* ... by a list
         C07_S(r \o "s"),                                                                    \* target-name override by a string
-        C07_Import(r \o "i"),
+        C07_Import(r \o "i"), C07_EvalN("d"),
         \* items moved into an existing (safe) list argument by an !extend that is itself marked unsafe
         SD("dict", NoVal, <<<<C07_KA, [SD("extend", NoVal, <<<<IKey(0), C07_Call(r \o "e", <<>>)>>>>) EXCEPT !.form = "md", !.safe = "F"]>>>>),
         SD("dict", NoVal, <<<<C07_KA, [SD("extend", NoVal, <<<<IKey(0), C07_S(v)>>>>) EXCEPT !.form = "tag"]>>>>),
